@@ -33,6 +33,9 @@ def run(tier):
     for L in ([2, 4] if quick else [2, 3, 4, 8]):
         plans.append(dict(name="mule", fam=fams, algo="mule_spray", budget=L, steps=4 if quick else 5, sim=(25, 12) if quick else (600, 18),
                           cap=130 if quick else None, mc=not quick or L == 4))
+        if L == 4 or not quick:
+            plans.append(dict(name="mule", fam=fams, algo="mule_binary_spray", budget=L, steps=4 if quick else 5, sim=(25, 12) if quick else (600, 18),
+                              cap=100 if quick else None, mc=not quick))
     total, st = run_families(chk, "C18", plans, tier)
     own_violations(chk, "C18")
     chk.cov["traces_validated_against_impl"] = total
